@@ -6,6 +6,16 @@ ALL = ["C%02d" % i for i in range(1, 21)]
 
 # id -> dict(level, text, note, technique, design_ref, engine)
 CHECKS = {
+ "C06": dict(level="exploration", engine="gridx",
+   text="17 stateful models x parameter vectors covering every state-shape variant and branch x every input word of length T over the model's alphabet x every composition of T (all 2^(T-1)-1 split patterns, incl. 1-step segments and multiple splits): concatenated outputs and final states of the split run vs the uninterrupted run on the real model objects.",
+   note="Exhaustive over the stated alphabets and horizon; two recorded findings (Sacramento UH buffer, dissolved-nutrient previous volume) are matched by narrow signatures; StorageRouting compared within its solver tolerance.",
+   technique="bounded-exhaustive enumeration of input words x all split compositions (history enumeration) with a differential oracle (uninterrupted run)",
+   design_ref="2/C06"),
+ "C11": dict(level="exploration", engine="gridx",
+   text="StorageRouting: stable-region parameter grid x every word over 8 (inflow,lateral,rain,evap) letters with per-step water balance, non-negativity and the S=k*Q^m+dead law within the solver tolerance; Muskingum: (K,X) grid x every event word + zero tail (volume conservation) and steady flows; Lag: lags 0..8 x every word of every length (lags longer than the series included) x zero/pre-filled buffer against a FIFO reference.",
+   note="Exhaustive over the stated lattice; net evaporation is only bounded (loosest unit reading).",
+   technique="bounded-exhaustive enumeration of input words x parameter grid; per-transition balance invariants and a FIFO reference model",
+   design_ref="2/C11"),
  "C10": dict(level="exploration", engine="gridx",
    text="Bounded-exhaustive: parameter grids inside the documented/physical ranges x {no prefix, 30 dry, 30 storm steps} x every (rain,PET) word of length 1..T over a 6-letter alphabet through the real GR4J/Sacramento/Simhyd/Surm/RunoffCoefficient objects; per-step output, component-sum and cumulative-budget invariants, store bounds and a no-water-created budget in every reached state; exact closure for GR4J with X2=0, PET=0.",
    note="Exhaustive over the stated lattice and word length only; Sacramento's unit-hydrograph buffer is not observable and is left out of the stored-water term; GR4J X2>0 imports water by design.",
